@@ -56,7 +56,8 @@ pub struct Case {
     #[serde(default)]
     pub late: Vec<(Api, u64)>,
     pub after: Api,
-    /// `server.lock.host`: 0 = default, 1 = "localhost", 2 = "127.0.0.1"
+    /// `server.lock.host`: 0 = default, 1 = "localhost", 2 = "127.0.0.1"; 3, 4 = an address
+    /// that cannot be bound on this machine (nobody can ever hold that lock: only phase A runs)
     #[serde(default)]
     pub lock_host: u8,
 }
@@ -79,7 +80,7 @@ pub fn strategy() -> impl Strategy<Value = Case> {
         vec((api(), 0u64..60), 1..=7),
         vec((api(), 110u64..400), 0..=2),
         api(),
-        prop_oneof![2 => Just(0u8), 1 => Just(1u8), 1 => Just(2u8)],
+        prop_oneof![4 => Just(0u8), 2 => Just(1u8), 2 => Just(2u8), 1 => Just(3u8), 1 => Just(4u8)],
     )
         .prop_map(|(race, holder, termination, contenders, late, after, lock_host)| Case {
             race,
@@ -266,6 +267,8 @@ pub fn check(case: &Case, w: usize) -> CheckResult {
         lock_host: match case.lock_host {
             1 => Some("localhost".into()),
             2 => Some("127.0.0.1".into()),
+            3 => Some("192.0.2.1".into()),
+            4 => Some("198.51.100.9".into()),
             _ => None,
         },
         ..Default::default()
@@ -306,6 +309,17 @@ pub fn check(case: &Case, w: usize) -> CheckResult {
         }
     }
 
+    if case.lock_host >= 3 {
+        // the lock address cannot be bound: nobody got past acquisition, so nothing was recorded
+        let written: Vec<String> = bb::snapshot_dir(&env.path("monorail-out")).into_iter().filter(|(k, _)| !k.ends_with('/')).map(|(k, _)| k).collect();
+        if holders_a != 0 || !written.is_empty() {
+            return viol(
+                "c14.unbindable.acted",
+                format!("no invocation can hold a lock at an address that cannot be bound, but {} acquired and these files were written: {:?}", holders_a, written),
+            );
+        }
+        return Ok(CaseInfo::new(true).class("lock-address-cannot-be-bound").class(&format!("race={}", case.race.len())).inv(env.invocations));
+    }
     // ---- phase B: a holder that stays inside
     let _ = std::fs::remove_file(&log);
     let holder_trace = env.case_dir.join("trace-holder");
@@ -597,7 +611,7 @@ phase B: a holder kept inside its critical section (a `run` whose helper blocks 
 0-2 late contenders started 110-400 ms before the holder ends, holder termination by normal exit, failing run or SIGKILL, then one more invocation. oracle: (i) from the point log, [lock.acquired, lock.release] intervals of different processes never overlap (a killed \
 holder's interval ends at a time stamp taken before the kill); (ii) a process that never acquired, and every contender that ran while the holder was provably inside, ends non-zero with a lock error, \
 starts no executable (own trace directory: command executables and, through a wrapper on PATH, git), and the out directory is byte-identical before/after the contenders; (iii) after the holder ended the next invocation does not get a lock error; (iv) a process whose bind attempt (lock.attempt) fell inside another process's holding interval, with 100 ms to spare before the release, never acquires. \
-phase C: the four APIs started, in a generated order, by a command executable of the lock-holding run itself (same environment): each must be refused with a lock error, start nothing and leave the checkpoint alone. non-trivial = at least one contender overlapped the holder; distinct by SHA-256"
+a seventh of the cases use a lock address that cannot be bound at all (192.0.2.1, 198.51.100.9): only phase A runs, every invocation must end with a lock error, start nothing and write nothing. phase C: the four APIs started, in a generated order, by a command executable of the lock-holding run itself (same environment): each must be refused with a lock error, start nothing and leave the checkpoint alone. non-trivial = at least one contender overlapped the holder; distinct by SHA-256"
         .to_string();
     ctx.assumptions = vec![
         "lock.release is logged before the guard is dropped, so a correct lock cannot produce an overlap".into(),
